@@ -11,6 +11,7 @@ func c10Prefixes() []*Expr {
 	return []*Expr{
 		eRoot(), eRoot(sAnyArray()), eRoot(sKey("a")), eRoot(sAnyKey()), eRoot(sKey("a"), sAnyArray()), eRoot(sAnyArray(), sKey("a")),
 		eRoot(sAny(0, -1)), eRoot(sIndex(sub1(eInt(0)))), eRoot(sAnyArray(), sFilter(eExists(eCur(sKey("a"))))), eRoot(sIndex(subR(eInt(0), eLast()))),
+		eRoot(sMethod("keyvalue"), sKey("value")), eRoot(sIndex(sub1(eInt(0)), sub1(eInt(1)))),
 	}
 }
 
@@ -133,6 +134,11 @@ func c10Check(in c10Input, doc any) *Failure {
 	if got != want {
 		return &Failure{Sig: "C10/kept-items-differ/" + shape, Expected: want, Observed: got}
 	}
+	// the existence-only evaluation of the same filter agrees: Exists is true iff some item is kept
+	// (whatever the position of the kept item among those the prefix delivers)
+	if E := implExists(qa, doc, cfg); E.Class != "ok" || E.Bool != (len(kept) > 0) {
+		return &Failure{Sig: "C10/exists-disagrees-with-kept-items/" + shape, Expected: fmt.Sprint("Exists = ", len(kept) > 0, " (kept ", canonList(kept), ")"), Observed: E.String()}
+	}
 	// no item altered: containers are the very containers P delivered
 	ptrs := map[uintptr]bool{}
 	for _, x := range items {
@@ -172,7 +178,7 @@ func c10Consecutive(in c10Input, cond2 *Expr, doc any) *Failure {
 }
 
 func runC10(r *Run) {
-	r.Rule("every prefix P (10 accessor chains) x every condition C from a generated pool (31 base conditions over @ covering every predicate kind, soft failures, nested filters followed by further uses of @, hard errors; their negations and is-unknown; all ordered pairs under && and ||) x every JSON document with <= K nodes x {lax,strict}; oracle = relation between three real executions: Query(P ? (C)) must be the order-preserving subsequence of the (lax-unwrapped) items x of Query(P) for which Query(C[@:=$], x) is [true]; false/null/soft error drop; a hard error aborts; containers pointer-identical; strict: P?(C1)?(C2) == P?(C1 && C2); non-trivial = P yields at least one item")
+	r.Rule("every prefix P (12 accessor chains incl. .keyvalue().value and [0,1]) x every condition C from a generated pool (31 base conditions over @ covering every predicate kind, soft failures, nested filters followed by further uses of @, hard errors; their negations and is-unknown; all ordered pairs under && and ||) x every JSON document with <= K nodes x {lax,strict}; oracle = relation between three real executions: Query(P ? (C)) must be the order-preserving subsequence of the (lax-unwrapped) items x of Query(P) for which Query(C[@:=$], x) is [true]; false/null/soft error drop; a hard error aborts; Exists(P ? (C)) is true iff an item is kept; containers pointer-identical; strict: P?(C1)?(C2) == P?(C1 && C2); the same programs, and 45 conditions mentioning a variable bound to a string, a number, two arrays and an object, also against the reference model; non-trivial = P yields at least one item")
 	K, pairN := 3, 8
 	if r.Thorough() {
 		K, pairN = 4, 21
@@ -226,6 +232,23 @@ func runC10(r *Run) {
 		}
 	}
 	refSweep(r, "filter-vs-reference", rpaths, docs, []sweepCfg{{Num: "float64"}})
+	// conditions that mention a variable, bound to a scalar, an array and an object (the right operand of
+	// starts with is never unwrapped, a comparison operand is unwrapped in lax mode only)
+	var vconds []*Expr
+	x := eVar("x")
+	for _, cnd := range []*Expr{{K: KStartsWith, A: eCur(), B: x}, {K: KStartsWith, A: eCur(sKey("a")), B: x}, eCmp("==", eCur(), x), eCmp("==", x, eCur()), eCmp(">=", eCur(), x), eCmp("==", eCur(sKey("a")), x),
+		eCmp("==", eCur(), eVar("x", sAnyArray())), eCmp("==", eCur(), eVar("x", sKey("a"))), eExists(eVar("x", sFilter(eCmp("==", eCur(), eInt(1)))))} {
+		vconds = append(vconds, cnd, eNot(cnd), &Expr{K: KIsUnknown, A: cnd}, eAnd(cnd, eCmp("==", eCur(), eCur())), eOr(cnd, eExists(eCur(sKey("b")))))
+	}
+	var vpaths []Path
+	for _, cnd := range vconds {
+		for _, pf := range prefixes {
+			vpaths = append(vpaths, Path{E: pf.withSteps(sFilter(cnd))}, Path{Strict: true, E: pf.withSteps(sFilter(cnd))})
+		}
+	}
+	r.Bound("variable_condition_paths", len(vpaths))
+	refSweep(r, "filter-vs-reference", vpaths, docs, []sweepCfg{{Num: "float64", Vars: map[string]string{"x": "s:a"}}, {Num: "float64", Vars: map[string]string{"x": "i:1"}},
+		{Num: "float64", Vars: map[string]string{"x": `j:["a",1]`}}, {Num: "float64", Vars: map[string]string{"x": `j:{"a":1}`}}, {Num: "float64", Vars: map[string]string{"x": `j:[["a"],"b"]`}}})
 	// consecutive filters (strict), hard-error-free conditions
 	base := condBase()
 	var soft []cond
